@@ -55,7 +55,7 @@ LEVEL_NOTE = ("Partial where stated: registry injectivity and template correctne
 TECHNIQUE = "Lean 4 proof over a printer model + translator-regenerated tables with per-row decide + token/AST correspondence + differential execution (exec / g++ / ctypes) against an independent DAG interpreter"
 
 WORK = os.path.join(ROOT, ".work", "c05")
-NWORKERS = 8
+NWORKERS = 6
 
 
 def generate(ctx):
@@ -74,7 +74,12 @@ def run_workers(cases, cfg, nworkers=NWORKERS):
         shards[k % nworkers].append(c)
     env = dict(os.environ)
     env["PYTHONPATH"] = REPO + os.pathsep + ROOT + os.pathsep + env.get("PYTHONPATH", "")
-    env["PATH"] = os.path.dirname(PY) + os.pathsep + env.get("PATH", "")
+    # clang-format must NOT be found: utils.format_cpp then prints "Failed to run clang-format" and returns the
+    # unformatted text (tokens are compared, layout is irrelevant); clang-format needs 10+ GB on long lines
+    env["PATH"] = os.pathsep.join(d for d in env.get("PATH", "").split(os.pathsep)
+                                  if d and not os.path.exists(os.path.join(d, "clang-format")))
+    env["OPENBLAS_NUM_THREADS"] = "1"
+    env["OMP_NUM_THREADS"] = "1"
     outs = [None] * nworkers
     errs = [None] * nworkers
 
